@@ -22,6 +22,89 @@ def config_names():
     return names
 
 
+class _PipeIn:
+    encoding = "utf-8"
+
+    def __init__(self):
+        import os
+
+        self.r, self.w = os.pipe()
+
+    def fileno(self):
+        return self.r
+
+    def close(self):
+        import os
+
+        os.close(self.r)
+        os.close(self.w)
+
+
+def shard_streams(args):
+    """The three naming modes through the real Input (never entered, reading from a pipe): bursts in which an escape sequence of
+    3..7 bytes lies at every position across the 1 024-byte read boundary, with paste detection off / low / high. All modes must cut
+    the stream at the same places, bytes mode must return exactly the bytes, the other modes the names of those byte groups (the bytes mode's own cut is the reference)."""
+    tier, seed, idx, nshards = args
+    import os
+
+    import curtsies.input as ci
+    from curtsies import events
+
+    acc = Acc(seed=seed)
+    ci.getpreferredencoding = lambda: "utf-8"
+    seqs = [b"\x1b[A", b"\x1bOP", b"\x1b[1;10A", b"\x1b[15~", b"\x1b\x7f", b"\x1b[1;5C"]
+    k = 0
+    for seq in seqs:
+        for lead in list(range(1015, 1027)) + [2039, 2047, 2048, 0, 1]:
+            for tail in (b"", b"b", seq + b"zz"):
+                for th in (None, 8, 5000):
+                    k += 1
+                    if k % nshards != idx:
+                        continue
+                    units = [b"a"] * lead + [seq] + ([tail] if len(tail) == 1 else [seq, b"z", b"z"] if tail else [])
+                    data = b"".join(units)
+                    out = {}
+                    for mode in ("bytes", "curtsies", "curses"):
+                        ps = _PipeIn()
+                        try:
+                            inp = ci.Input(in_stream=ps, keynames=mode, paste_threshold=th)
+                            os.write(ps.w, data)
+                            got, nones = [], 0
+                            for _ in range(len(units) + 10):
+                                try:
+                                    e = inp.send(0)
+                                except Exception as ex:  # noqa
+                                    got.append(("exc", type(ex).__name__))
+                                    break
+                                if e is None:
+                                    nones += 1
+                                    if nones >= 2:
+                                        break
+                                    continue
+                                nones = 0
+                                got.extend(e.events if isinstance(e, events.PasteEvent) else [e])
+                            out[mode] = got
+                        finally:
+                            ps.close()
+                    case = {"burst": "%d x 'a' + %r + %r" % (lead, seq, tail), "paste_threshold": th}
+                    acc.case(True, key=("stream", seq, lead, tail, th), sample=case)
+                    acc.transitions += 3
+                    # where the stream is cut is not prescribed here (without paste detection a sequence lying across the 1 024-byte
+                    # read is reported in two parts, in every mode): the bytes mode's own cut is the reference for the other two
+                    cut = out["bytes"]
+                    if not all(isinstance(u, bytes) for u in cut) or b"".join(cut) != data:
+                        acc.failure("C20:bytes_mode_does_not_return_the_bytes_of_each_keypress", case, "%d bytes in, keypresses %r ..." % (len(data), cut[-4:]))
+                        continue
+                    if cut != units:
+                        acc.add("bursts_cut_by_the_read_boundary")
+                    for mode, kn in (("curtsies", events.Keynames.CURTSIES), ("curses", events.Keynames.CURSES)):
+                        want = [events.get_key([u[i : i + 1] for i in range(len(u))], "utf-8", keynames=kn, full=True) for u in cut]
+                        if out[mode] != want:
+                            j = next((i for i, (x, y) in enumerate(zip(out[mode], want)) if x != y), min(len(want), len(out[mode])))
+                            acc.failure("C20:modes_cut_the_stream_at_different_places", dict(case, mode=mode), "%d keypresses (bytes mode: %d); keypress %d: %r, expected %r" % (len(out[mode]), len(cut), j, out[mode][j : j + 3], want[j : j + 3]))
+    return acc.export()
+
+
 def run(ctx):
     from curtsies.configfile_keynames import keymap
 
@@ -101,6 +184,8 @@ def run(ctx):
     except Exception as ex:  # noqa
         acc.failure("C20:unbound_key_raises:" + type(ex).__name__, {"config_key": ""}, repr(ex))
     rep.merge(acc, "tables_and_config_names")
+    for d in ctx.pmap(shard_streams, [(ctx.tier, ctx.seed, i, 16) for i in range(16)]):
+        rep.merge(d, "three_modes_through_input_across_the_read_boundary")
     rep.states_override = nodes
     rep.validated = rep.n
     rep.exhaustive = False
